@@ -183,3 +183,7 @@ pub mod gmsol_treasury {
 
 #[cfg(not(feature = "no-entrypoint"))]
 gmsol_utils::security_txt!("GMX-Solana Treasury Program");
+
+/// Verification hooks: additive re-exports of crate-private items for the /verif harness.
+#[cfg(feature = "verif-hooks")]
+pub mod verif;
